@@ -49,6 +49,22 @@ def short_alphabets():
     return sorted(rate), sorted(accel), sorted(jerk), 24
 
 
+def window_edge_rows():
+    """Rows whose turning point lies a hair inside the window in which the helper looks at it
+    (1.5 < t < T - 1.5): accel = jerk * (2 - T) +- k and accel = -jerk -+ k for k = 0..3, small
+    and very large jerk (the hair is k / |jerk| of a tick), T = 4..20."""
+    rows = set()
+    for jerk in (7, 1000, 40000, 2000001, 3600000, 5426265):
+        for sign in (1, -1):
+            j_s = sign * jerk
+            for ticks in (4, 5, 8, 12, 20):
+                for k in range(4):
+                    for accel in (j_s * (2 - ticks) + sign * k, -j_s - sign * k):
+                        for rate in (0, 1000000000, -1000000000, 123456789):
+                            rows.add((rate, accel, j_s))
+    return sorted(rows)
+
+
 def _lib():
     from plotink import ebb_calc            # pylint: disable=import-outside-toplevel
     return ebb_calc
@@ -162,6 +178,7 @@ def run(ctx):
     # rows touching 2^31-1 or -2^31 (valid, no positive counterpart) exactly at a chosen tick
     from .c02 import edge_rows              # pylint: disable=import-outside-toplevel
     rows2 |= {row[:3] for row in edge_rows([0], s_ticks)}
+    rows2 |= set(window_edge_rows())
     rows2 = sorted(rows2)
     part.merge(core.fan_out(ctx, _rows_chunk, [(c, s_ticks) for c in core.split(rows2, 64)]))
     part.merge(core.fan_out(ctx, _limit_chunk,
@@ -177,7 +194,7 @@ def run(ctx):
         "evaluations": cnt.get("states", 0),
         "distinct_nontrivial": cnt.get("interior_peak_states", 0),
         "rule": "T3 machine stepped from every (rate, accel, jerk) of two lattices (interior-"
-                "extremum lattice up to max_ticks, boundary lattice up to 24 ticks, incl. rows touching 2^31-1 / -2^31 at a chosen tick) inside the "
+                "extremum lattice up to max_ticks, boundary lattice up to 24 ticks, incl. rows touching 2^31-1 / -2^31 at a chosen tick and rows whose turning point lies k/|jerk| of a tick inside the window edge) inside the "
                 "domain; max_rate_t3 called at every state (T = tick index); rows crossing the "
                 "2^31-1 limit stepped with a wider register for the 'reported as within the limit' "
                 "clause; non-trivial = states "
@@ -194,7 +211,7 @@ def run(ctx):
 
 
 def replay(case):
-    if case.get("kind") == "calc_history":
+    if case.get("kind") in ("calc_history", "calc_fresh"):
         from .. import calcseq             # pylint: disable=import-outside-toplevel
         return calcseq.replay(case)
     rate, accel, jerk, ticks = case["rate"], case["accel"], case["jerk"], case["ticks"]
